@@ -33,7 +33,10 @@ func init() { Registry["C07"] = C07 }
 
 // lsLister returns one page of the real code. sent is the marker (walk, v1),
 // start-after (v2, first page) or continuation token (v2, follow-up page).
-type lsLister func(prefix, delim, sent string, max int, follow bool) *lsObs
+// origin is the start position of the chain the page belongs to (api "v2s": a
+// follow-up request repeats it as start-after next to the token, as the AWS SDK
+// paginators do).
+type lsLister func(prefix, delim, sent, origin string, max int, follow bool) *lsObs
 
 func md5hex(b []byte) string { s := md5.Sum(b); return hex.EncodeToString(s[:]) }
 
@@ -125,7 +128,7 @@ func lsObsOf(res backend.WalkResults, err error) *lsObs {
 }
 
 // walk is the real backend.Walk of /repo.
-func (b *lsBinding) walk(prefix, delim, sent string, max int, follow bool) *lsObs {
+func (b *lsBinding) walk(prefix, delim, sent, origin string, max int, follow bool) *lsObs {
 	return lsObsOf(backend.Walk(context.Background(), b.mfs, prefix, delim, sent, int32(max), b.getObj, []string{lsReserved}))
 }
 
@@ -171,7 +174,7 @@ func (b *lsBinding) explain(pt *lsPoint, o *lsObs) (int, bool) {
 
 // lsHTTPBinding: (B) ListObjects V1 / V2 of a real gateway process.
 func lsHTTPBinding(cl *s3c.Client, bucket, api string) lsLister {
-	return func(prefix, delim, sent string, max int, follow bool) *lsObs {
+	return func(prefix, delim, sent, origin string, max int, follow bool) *lsObs {
 		var q []s3c.KV
 		if prefix != "" {
 			q = append(q, s3c.KV{K: "prefix", V: prefix})
@@ -185,9 +188,12 @@ func lsHTTPBinding(cl *s3c.Client, bucket, api string) lsLister {
 		if api == "v1" && sent != "" {
 			q = append(q, s3c.KV{K: "marker", V: sent})
 		}
-		if api == "v2" && sent != "" {
+		if (api == "v2" || api == "v2s") && sent != "" {
 			if follow {
 				q = append(q, s3c.KV{K: "continuation-token", V: sent})
+				if api == "v2s" && origin != "" {
+					q = append(q, s3c.KV{K: "start-after", V: origin})
+				}
 			} else {
 				q = append(q, s3c.KV{K: "start-after", V: sent})
 			}
@@ -353,18 +359,22 @@ func (r *lsRun) explore(v *lsVec, b *lsBinding, api string, list lsLister, point
 	}
 	memo := map[mk]*lsObs{}
 	judged := map[mk]bool{}
-	get := func(sent string, max int, follow bool) *lsObs {
-		k := mk{sent, max, follow && api == "v2"}
+	isV2 := api == "v2" || api == "v2s"
+	get := func(sent, origin string, max int, follow bool) *lsObs {
+		k := mk{sent, max, follow && isV2}
+		if api == "v2s" && follow {
+			k.sent = sent + "\x00" + origin
+		}
 		if o, ok := memo[k]; ok {
 			return o
 		}
-		o := list(v.p, v.d, sent, max, follow)
+		o := list(v.p, v.d, sent, origin, max, follow)
 		memo[k] = o
 		return o
 	}
 	var npages, nchains, nw, namb, drift, mirrorBad int64
 	judge := func(pt *lsPoint, o *lsObs, rec *lsMarkerRec, x int) bool {
-		k := mk{pt.Sent, pt.Max, pt.Follow && api == "v2"}
+		k := mk{pt.Sent, pt.Max, pt.Follow && isV2}
 		cacheable := pt.Sent == pt.Marker
 		if ok, seen := judged[k]; seen && cacheable {
 			return ok
@@ -413,7 +423,7 @@ func (r *lsRun) explore(v *lsVec, b *lsBinding, api string, list lsLister, point
 		rec, x := &v.MS[pnt[0]], pnt[1]
 		max := lsMaxes[x]
 		pt := &lsPoint{Keys: keys, Prefix: v.p, Delim: v.d, Marker: rec.m, Sent: rec.m, Max: max, API: api, MPU: mpu, Origin: rec.m}
-		o := get(rec.m, max, false)
+		o := get(rec.m, rec.m, max, false)
 		allOK := judge(pt, o, rec, x)
 		if max == 0 || o.Err != "" || !allOK {
 			continue
@@ -438,7 +448,7 @@ func (r *lsRun) explore(v *lsVec, b *lsBinding, api string, list lsLister, point
 			}
 			fpt := &lsPoint{Keys: keys, Prefix: v.p, Delim: v.d, Marker: after, Sent: cur.Next, Max: max, API: api, Follow: true, MPU: mpu, Origin: rec.m, Prev: prevSent}
 			prevSent = cur.Next
-			nx := get(cur.Next, max, true)
+			nx := get(cur.Next, rec.m, max, true)
 			if nx.Err != "" {
 				r.violation(core.FP("C07", "error-reply", api, "follow-up"), ptStr(fpt)+": "+nx.Err, fpt, nx)
 				allOK = false
@@ -558,7 +568,7 @@ func C07(c *core.Ctx, replay string) {
 		"max-keys=0: only an empty page is demanded (IsTruncated unconstrained, no chain followed)",
 		"Contents and CommonPrefixes are separate lists in the reply: ascending order is demanded within each",
 		"a follow-up page is judged against the rule's page after the last entry of the page before it (the returned marker/token itself is opaque); V1 without NextMarker continues from the last key",
-		"V2 follow-up requests carry only the continuation token",
+		"V2 follow-up requests carry the continuation token alone (api v2) or the token together with the chain's original start-after (api v2s, what the SDK paginators send); both must give the page after the token",
 		"ETag truth is the ETag returned by PutObject (MD5 of the body for the direct binding)",
 	}
 	run := &lsRun{c: c, fpCount: map[string]int{}, fpSample: map[string]string{}, fpByAPI: map[string]map[string]int{}, fpSampleHTTP: map[string]string{}, pages: map[string]int64{}, chains: map[string]int64{}}
@@ -764,7 +774,7 @@ func C07(c *core.Ctx, replay string) {
 				sc := bufio.NewScanner(f)
 				sc.Buffer(make([]byte, 1<<20), 256<<20)
 				curKS := -1
-				var v1, v2 lsLister
+				var v1, v2, v2s lsLister
 				var wb, hb *lsBinding
 				var keys []string
 				mpu := false
@@ -795,6 +805,7 @@ func C07(c *core.Ctx, replay string) {
 						}
 						hb = lsNewBinding(keys, httpMeta)
 						v1, v2 = lsHTTPBinding(cl, bn, "v1"), lsHTTPBinding(cl, bn, "v2")
+						v2s = lsHTTPBinding(cl, bn, "v2s")
 						linesOfSet = (2 + len(allPrefixes(keys))) * 5
 					}
 					// (A) every point of the line against backend.Walk
@@ -832,6 +843,7 @@ func C07(c *core.Ctx, replay string) {
 					if len(pts) > 0 {
 						run.explore(&v, hb, "v1", v1, pts, mpu, false)
 						run.explore(&v, hb, "v2", v2, pts, mpu, false)
+						run.explore(&v, hb, "v2s", v2s, lsWithMarker(&v, pts), mpu, false)
 					}
 				}
 				f.Close()
@@ -852,7 +864,7 @@ func C07(c *core.Ctx, replay string) {
 	c.TLCRuns = append(c.TLCRuns, map[string]any{"module": "S3ListVec", "cfg": fmt.Sprintf("S3ListVec.cfg, %d runs over %d key sets", len(chunks), len(chosen)),
 		"generated": vecTrans, "distinct": vecStates, "ok": true, "violated": "", "wall_s": tlcWall, "vector_lines": vecLines})
 	c.Extra["vector_lines(keyset x prefix x delimiter)"] = vecLines
-	c.TracesValidated += run.pages["walk"] + run.pages["v1"] + run.pages["v2"]
+	c.TracesValidated += run.pages["walk"] + run.pages["v1"] + run.pages["v2"] + run.pages["v2s"]
 
 	lwg.Wait()
 	for i, l := range lems {
@@ -1210,7 +1222,7 @@ func chainLines(run *lsRun, b *lsBinding, api string, list lsLister, prefix, del
 		out = append(out, l)
 	}
 	pt := &lsPoint{Keys: keys, Prefix: prefix, Delim: delim, Marker: marker, Sent: marker, Max: max, API: api, MPU: mpu, Origin: marker}
-	o := list(prefix, delim, marker, max, false)
+	o := list(prefix, delim, marker, marker, max, false)
 	if o.Err != "" {
 		run.violation(core.FP("C07", "error-reply", api), ptStr(pt)+": listing failed: "+o.Err, pt, o)
 		return nil
@@ -1224,7 +1236,7 @@ func chainLines(run *lsRun, b *lsBinding, api string, list lsLister, prefix, del
 		}
 		fpt := &lsPoint{Keys: keys, Prefix: prefix, Delim: delim, Marker: after, Sent: o.Next, Max: max, API: api, Follow: true, MPU: mpu, Origin: marker, Prev: prevSent}
 		prevSent = o.Next
-		o = list(prefix, delim, o.Next, max, true)
+		o = list(prefix, delim, o.Next, marker, max, true)
 		if o.Err != "" {
 			run.violation(core.FP("C07", "error-reply", api, "follow-up"), ptStr(fpt)+": listing failed: "+o.Err, fpt, o)
 			break
@@ -1267,7 +1279,7 @@ func c07Random(c *core.Ctx, run *lsRun, env *Env, nsets int) []*lsTraceLine {
 			return lines
 		}
 		wb, hb := lsNewBinding(keys, nil), lsNewBinding(keys, meta)
-		v1, v2 := lsHTTPBinding(cl, bn, "v1"), lsHTTPBinding(cl, bn, "v2")
+		v1, v2, v2s := lsHTTPBinding(cl, bn, "v1"), lsHTTPBinding(cl, bn, "v2"), lsHTTPBinding(cl, bn, "v2s")
 		for i := 0; i < c.Pick(14, 24); i++ {
 			p, d, m, max := lsRandomPoint(c.Rng, keys)
 			if i == 0 {
@@ -1276,8 +1288,16 @@ func c07Random(c *core.Ctx, run *lsRun, env *Env, nsets int) []*lsTraceLine {
 			if i == 1 {
 				p, d, m, max = "", "/", "", 2
 			}
+			if mpu && i >= 2 && i <= 5 {
+				// a prefix that reaches below the reserved directory (an open multipart
+				// upload is staged there): still nothing internal may be listed
+				p, d, m, max = []string{lsReserved + "/multipart/", lsReserved + "/multipart", lsReserved + "/m", lsReserved + "/"}[i-2], []string{"", "/"}[i%2], "", 1000
+			}
 			ls := chainLines(run, hb, "v1", v1, p, d, m, max, mpu)
 			ls = append(ls, chainLines(run, hb, "v2", v2, p, d, m, max, mpu)...)
+			if m != "" {
+				ls = append(ls, chainLines(run, hb, "v2s", v2s, p, d, m, max, mpu)...)
+			}
 			if i%4 == 0 {
 				ls = append(ls, chainLines(run, wb, "walk", wb.walk, p, d, m, max, false)...)
 			}
@@ -1336,4 +1356,16 @@ func c07Replay(c *core.Ctx, run *lsRun, path string) {
 	}
 	c.Sample(map[string]any{"replayed": pt})
 	c07Trace(c, run, lines, false)
+}
+
+// lsWithMarker keeps the points whose start position is not empty (the v2s
+// variant differs from v2 only there).
+func lsWithMarker(v *lsVec, pts [][2]int) [][2]int {
+	var out [][2]int
+	for _, p := range pts {
+		if v.MS[p[0]].m != "" {
+			out = append(out, p)
+		}
+	}
+	return out
 }
